@@ -4,8 +4,8 @@ RULE = ("cases = committed corpus + seeded generator of harness/src/bin/c12i.rs.
         "Stream type is a harness-local MarketStream; two connector ids: mock / simulated), a back-off policy (40 %: the repository's STREAM_RECONNECTION_POLICY constant read "
         "from the source, otherwise initial {0,1,10,100,125,700} x multiplier {0,1,2,3,10} x max {0,5,500,1000,60000} incl. initial > max), how the returned stream is consumed "
         "(as returned | with .with_error_handler appended), the number of subscriptions (0 in 6 %: no stream, no init call; else 1-4) and a script of 1-8 / 1-12 MarketStream::init "
-        "outcomes, each `fail` or `ok` with 0-5 elements from {Ok(event), Err(Socket), Err(InitialSnapshotMissing), Err(InitialSnapshotInvalid), Err(InvalidSequence) = the only "
-        "terminal error, latency} over 4 payloads, ending or staying open; fail rate 20/50/75 %. EVERY `conn` op re-runs the REAL init_market_stream::<Scripted, "
+        "outcomes, each `fail` or `ok` with 0-5 elements from {Ok(event), Err(v) for EVERY variant v of DataError — Socket, InitialSnapshotMissing, InitialSnapshotInvalid, Index, "
+        "SubscriptionsEmpty, UnsupportedSubKind, Unsupported (non-terminal) and InvalidSequence = the only terminal error —, latency} over 4 payloads, ending or staying open; fail rate 20/50/75 %. EVERY `conn` op re-runs the REAL init_market_stream::<Scripted, "
         "MarketDataInstrument, PublicTrades>(policy, subscriptions) on the script so far on a fresh paused-clock current-thread runtime and prints every init call (virtual time, "
         "number of subscriptions it was handed), every delivered item / error / notice (with its origin) / handler call with its tokio::time::Instant stamp, the number of such "
         "lines and the final status. Thorough additionally enumerates every script of <= 4 connections over a 9-symbol alphabet under the default policy (events) and a policy "
@@ -18,7 +18,13 @@ ASSUMPTIONS = [
     "(ExchangeWsStream::init) are not part of init_market_stream and not exercised here (C12W / C13S / C06E cover the offline parts)",
     "init_market_stream does NOT apply with_error_handler: non-terminal errors are items (Event::Item(Err(_))) of the returned stream; `mode handler` appends the documented "
     "consumer pattern of barter-data/src/lib.rs:84-86 to the returned stream",
-    "terminal = DataError::is_terminal = InvalidSequence only; four DataError variants are scripted (InvalidSequence, Socket, InitialSnapshotMissing, InitialSnapshotInvalid)",
+    "terminal = DataError::is_terminal = InvalidSequence only; all eight DataError variants are modelled and scripted as stream errors (InvalidSequence, Socket, "
+    "InitialSnapshotMissing, InitialSnapshotInvalid and — although the repository's own streams never yield them — Index, SubscriptionsEmpty, UnsupportedSubKind, Unsupported); "
+    "payloads: a number rendered into the variant's string / id field, none for SubscriptionsEmpty, the SubKind (and mock | simulated) for the two Unsupported variants",
+    "what ties the model's EXPRESSION to consumer.rs:72-79 (order of the combinators, the closure `|e| e.is_terminal()`, the policy and Exchange::ID passed on, a clone of the "
+    "caller's subscriptions handed to every init) is the correspondence alone: the model was written as the C12 composition, the origin of a notice is a tag copied from the "
+    "argument and the `ev att <t> <nsubs>` count is printed by the driver from its own state — no theorem can fail if the Rust expression changes, the harness run does "
+    "(mutants C12I_no_termination / _origin_constant / _policy_ignored)",
     "the first init failing means init_market_stream returns Err (no stream exists); the property text's 're-initialisation' is read as attempts after the first success (as C12)",
     "tracing output (the info!/warn!/error! lines and the StreamKey in them) is not observed",
 ]
@@ -54,11 +60,17 @@ TECHNIQUE = ("Lean 4: init_market_stream written as the source's expression over
              "DataError::is_terminal, hence (run_events/handler_refines_spec instantiated) to the trace the property text prescribes; correspondence of the model with the REAL "
              "init_market_stream driven by a scripted harness-local exchange on a paused-clock tokio runtime")
 LEVEL_TEXT = ("Proof (PARTIAL exactly as C12: list-level trace semantics). lean/BarterModel/Props/C12I.lean, for every exchange id, policy, number of subscriptions and script of "
-              "init outcomes: is_c12_composition (init_market_stream = runEvents on the script read through is_terminal, notices carry the exchange id), refines_spec / "
-              "handler_refines_spec (= the trace of the C12 specification written from the property text, with and without the documented error handler), "
-              "no_subscriptions_no_stream, first_init_failure_is_an_error, terminal_iff_invalid_sequence, terminal_error_ends_connection_not_stream (items before the first "
-              "InvalidSequence, neither it nor anything after it, then exactly ONE Reconnecting notice, then the next connections; the stream has not ended), "
-              "non_terminal_error_is_an_item, delivered_is_segments, errors_go_to_handler, never_ends_and_stable, origin_is_exchange, default_policy_constants / _waits / _capped "
-              "(125 ms x 2^n capped at 60 s).")
+              "init outcomes. RESULTS: refines_spec / handler_refines_spec (what init_market_stream returns = the trace of the C12 specification written from the property text, "
+              "with and without the documented error handler; the script read with `terminal = InvalidSequence`, spelled out variant by variant over all eight DataError "
+              "variants), terminal_iff_invalid_sequence + non_terminal_variants (is_terminal over ALL eight variants), terminal_error_ends_connection_not_stream (items before "
+              "the first InvalidSequence, neither it nor anything after it, then exactly ONE Reconnecting notice, then the next connections; the stream has not ended), "
+              "non_terminal_error_is_an_item (each of the seven other variants), delivered_is_segments, errors_go_to_handler, first_init_failure_is_an_error, "
+              "never_ends_and_stable, default_policy_waits / _capped (125 ms x 2^n capped at 60 s), err_code_round_trip / err_code_injective (the printed error identity is "
+              "faithful). DEFINITIONAL / BOOKKEEPING (true by the way the model is written; they carry no evidence about consumer.rs, the harness does): is_c12_composition (the "
+              "model IS C12's runEvents on the script read through is_terminal — every Lean result above is therefore C12's, instantiated), origin_is_exchange (the origin is a "
+              "tag copied from the argument), no_subscriptions_no_stream, default_policy_constants.")
 LEVEL_NOTE = ("Trusted: as C12, plus the harness-local scripted Connector / MarketStream (they replace a live exchange; the function under test and every combinator are the "
-              "repository's). Self-test: mutants/C12I_*.patch (delete .with_termination_on_error, another origin, terminal closure |_| false, policy ignored).")
+              "repository's). The tie of the composition (combinator order, closure, policy, Exchange::ID as the origin of every notice, the subscription list handed to each "
+              "init) to barter-data/src/streams/consumer.rs is the correspondence of the real function with the model, not a theorem. Self-test: mutants/C12I_*.patch (delete "
+              ".with_termination_on_error, another origin, terminal closure |_| false / |_| true / Socket terminal / Unsupported terminal — the last one visible only since "
+              "all eight variants are scripted —, policy ignored, default policy cap).")
